@@ -123,12 +123,15 @@ func genProfile(r *rand.Rand) *profile.Profile {
 	m2 := &profile.Mapping{ID: 2, Start: 0x3000, Limit: 0x4000, File: "/lib/binB"}
 	p := &profile.Profile{SampleType: []*profile.ValueType{{Type: "n", Unit: "count"}, {Type: "v", Unit: "count"}}, Mapping: []*profile.Mapping{m1, m2}, PeriodType: &profile.ValueType{Type: "cpu", Unit: "ns"}, Period: 1}
 	nf := 2 + r.Intn(5)
+	// ids are distinct but neither dense nor ordered (any value just above the table size included)
+	fid := r.Perm(2*nf + 1)
 	for i := 0; i < nf; i++ {
-		p.Function = append(p.Function, &profile.Function{ID: uint64(i + 1), Name: fnNames[r.Intn(len(fnNames))], SystemName: "s", Filename: fileNames[r.Intn(len(fileNames))]})
+		p.Function = append(p.Function, &profile.Function{ID: uint64(fid[i] + 1), Name: fnNames[r.Intn(len(fnNames))], SystemName: "s", Filename: fileNames[r.Intn(len(fileNames))]})
 	}
 	nl := 2 + r.Intn(6)
+	lid := r.Perm(2*nl + 1)
 	for i := 0; i < nl; i++ {
-		l := &profile.Location{ID: uint64(i + 1), Address: uint64(0x1000 + i*16)}
+		l := &profile.Location{ID: uint64(lid[i] + 1), Address: uint64(0x1000 + i*16)}
 		switch r.Intn(3) {
 		case 0:
 			l.Mapping = m1
